@@ -43,8 +43,9 @@ type Evidence struct {
 }
 
 func newEvidence(prop, tier string, seed uint64) *Evidence {
-	return &Evidence{PropertyID: prop, Tier: tier, Seed: int64(seed & 0x7fffffffffffffff), Level: "proof",
-		Coverage: Coverage{Distribution: map[string]int{}, Streams: map[string]int{}, Samples: []interface{}{}},
+	return &Evidence{PropertyID: prop, Tier: tier, Seed: int64(seed & 0x7fffffffffffffff), Level: "proof", Assumptions: []string{},
+		Coverage: Coverage{Distribution: map[string]int{}, Streams: map[string]int{}, Samples: []interface{}{}, TrustedBase: []string{},
+			CheckerCmd: "(run through bin/check to build and collect the Coq obligations)"},
 		distinct: map[[8]byte]struct{}{}}
 }
 
@@ -106,8 +107,12 @@ func (e *Evidence) loadObligations(path, prop string) {
 	}
 	p := all[prop]
 	e.Coverage.CheckerCmd = p.CheckerCmd
-	e.Coverage.TrustedBase = p.TrustedBase
-	e.Assumptions = p.Assumptions
+	if p.TrustedBase != nil {
+		e.Coverage.TrustedBase = p.TrustedBase
+	}
+	if p.Assumptions != nil {
+		e.Assumptions = p.Assumptions
+	}
 	ax := map[string]struct{}{}
 	for _, f := range p.Files {
 		n := len(f.Theorems)
